@@ -98,6 +98,18 @@ fn install_hook() {
                 } else {
                     "<non-string payload>".to_string()
                 };
+                // one line on stderr as well: if the process dies while this panic unwinds
+                // (seen: SIGSEGV inside _Unwind_Resume), the supervisor still learns what
+                // panicked, and in which sub-step
+                {
+                    let line = format!("VERIF-PANIC ord={} {} :: {}\n", crate::driver::current_sub_ordinal(), location, message.chars().take(160).collect::<String>().replace('\n', " "));
+                    #[cfg(not(miri))]
+                    unsafe {
+                        libc::write(2, line.as_ptr() as *const _, line.len());
+                    }
+                    #[cfg(miri)]
+                    eprint!("{}", line);
+                }
                 LAST_PANIC.with(|p| *p.borrow_mut() = Some(PanicRec { location, message }));
             } else {
                 prev(info);
@@ -238,6 +250,20 @@ pub struct Death {
 }
 
 impl Death {
+    /// the last panic the worker reported before it died, if it belongs to the sub-step
+    /// that was in flight: (location, message)
+    pub fn last_panic(&self) -> Option<(String, String)> {
+        let line = self.stderr_tail.lines().rev().find(|l| l.starts_with("VERIF-PANIC "))?;
+        let rest = line.strip_prefix("VERIF-PANIC ord=")?;
+        let (ord, rest) = rest.split_once(' ')?;
+        let ord: u64 = ord.parse().ok()?;
+        if self.ordinal != u64::MAX && ord != u64::MAX && ord != self.ordinal {
+            return None;
+        }
+        let (loc, msg) = rest.split_once(" :: ")?;
+        Some((loc.to_string(), msg.to_string()))
+    }
+
     /// classification used in violation keys
     pub fn class(&self) -> String {
         let t = &self.stderr_tail;
